@@ -89,7 +89,7 @@ theorem C12c_get_refreshes_idle_time {c : Cfg} {s s' : State} {t k : Nat} {e : E
 /-- `insert` fixes the deadline when it is CALLED (the entry is built before any lock is taken):
 deadline = clock at the call + TTL (per-insert TTL if given, else the global one; none if neither) -/
 theorem C12c_insert_deadline_from_call {c : Cfg} {s s' : State} {t k v co : Nat} {o : Option Nat}
-    (h : step c s t (.call (.insert k v co o)) = some s') :
+    (h : step c s t (.call (.insert k v co o) false) = some s') :
     s'.pc t = .ins k v co (deadline c s.now o) (if c.tti = 0 then 0 else s.now) := by
   simp only [step] at h
   unfold stepCall at h
@@ -120,18 +120,18 @@ def cfgTtl : Cfg := { nThreads := 2, nShards := 1, capacity := 100, ttl := 10 }
 /-- thread 0 inserts key 1 (TTL 10), the clock advances by 10; then a `get`, an `entry().or_insert` and a
 `compute` of key 1 by thread 1 -/
 def prefixExpired : List (Nat × Label) :=
-  [(0, .call (.insert 1 10 1 none)), (0, .insMap), (0, .insEv), (0, .insAdd), (0, .coopSkip), (1, .advance 10)]
+  [(0, .call (.insert 1 10 1 none) false), (0, .insMap), (0, .insEv), (0, .insAdd), (0, .coopSkip), (1, .advance 10)]
 
 /-- non-vacuity of `C12c_read_serves_only_unexpired` / `C12c_expired_read_returns_none`: the `get`
 returns `none` although the binding is resident -/
-example : (run cfgTtl init (prefixExpired ++ [(1, .call (.get 1)), (1, .read)])).map
+example : (run cfgTtl init (prefixExpired ++ [(1, .call (.get 1) false), (1, .read)])).map
     (fun s => (s.pc 1, (s.map 1).map (·.val))) = some (.done none, some 10) := by decide
 
 /-- **F6**: `entry()` tests `contains_key` only, so `or_insert` hands out the expired value:
 `ServesOnlyUnexpired` is false for the `oiMap` step. -/
 theorem C12c_or_insert_serves_expired_fails_F6 : ¬ ServesOnlyUnexpired .oiMap := by
   intro hst
-  let tr := prefixExpired ++ [(1, .call (.orInsert 1 11 1))]
+  let tr := prefixExpired ++ [(1, .call (.orInsert 1 11 1) false)]
   cases hr : run cfgTtl init tr with
   | none => exact absurd hr (by decide)
   | some s =>
@@ -150,7 +150,7 @@ theorem C12c_or_insert_serves_expired_fails_F6 : ¬ ServesOnlyUnexpired .oiMap :
 /-- **F17**: `compute` / `try_compute` look the key up without an expiry check: they modify an expired
 entry and report success. -/
 theorem C12c_compute_on_expired_fails_F17 :
-    (run cfgTtl init (prefixExpired ++ [(1, .call (.compute 1 1000)), (1, .compute false)])).map
+    (run cfgTtl init (prefixExpired ++ [(1, .call (.compute 1 1000) false), (1, .compute false)])).map
       (fun s => (s.pc 1, (s.map 1).map (fun e => (e.val, expired cfgTtl s.now e)))) =
       some (.done (some 1), some (1010, true)) := by decide
 
